@@ -56,7 +56,7 @@ claim("C06", "kani+verus",
       "Kani proof harnesses over a fully symbolic MotionProfile (private fields symbolic under the data invariant) and symbolic query time; Verus for the constructor (panic-or-ordered) and the accessors' closed forms",
       "Presence table, piece<->mode table, monotone piece order with exact boundaries, acceleration values, History::get never panics / stamps t / has the mode's kind / carries the matching accessor's value, end command forever after completion - for every profile satisfying 0 <= t1 <= t2 <= t3 and every i64 time in the A7 range; the constructor either panics or yields ordered boundaries (Verus, idealised cast).",
       K_BASE + V_BASE + "A7: |t|, t3 < 2^60 ns.")
-claim("C07", V,
+claim("C07", "verus+kani",
       "Verus contracts on the extracted MotionProfile::{new,get_acceleration,get_velocity,get_position} over the extracted Unit/Quantity/Time operator layer: exact expression trees + idealised closed forms over the reals; trapezoid lemmas over the real-valued trajectory",
       "The accessors are proved to compute vel_r/pos_r (the three closed forms per phase) over the reals, with integer nanosecond arithmetic exact and no unit-check panic or overflow; lemmas over vel_r/pos_r prove v(0)=v0, p(0)=p0, continuity of velocity and position at both joins, position is the integral of velocity in each phase (trapezoid identity), the velocity bound, and arrival at the end state for the constructor's kinematic durations; the constructor either panics or returns ordered boundaries, with max_acc = |max_acc| * sign(displacement).",
       V_BASE + "A7; idealised (A3): the epsilon-proportional tolerances and sub-nanosecond truncations are listed as not decided.")
@@ -68,7 +68,7 @@ claim("C09", K,
       "Kani proof harness: one symbolic connect/disconnect step over an arbitrary symmetric matching of n real RefCell<Terminal> cells with symbolic slots (private fields set from inside the crate); read contracts per getter",
       "After one symbolic operation from ANY symmetric matching: no panic (RefCell double borrows are panics Kani reports), links again a symmetric matching, exactly the expected pairs changed, all slots untouched - one step over arbitrary matchings covers every operation sequence. State read = mean of own and partner (or whichever exists), command read = newer (own wins ties), combined read consistent; connected terminals read the same state. The connect() double-borrow defect was found here and repaired (known_findings.txt).",
       K_BASE + "n = 4 cells quick (connect touches at most 4 cells), up to 6 thorough.")
-claim("C10", V,
+claim("C10", "verus+kani",
       "Verus contracts on the extracted IntegralStream/DerivativeStream/AccelerationToState/VelocityToState/PositionToState::update over the extracted Quantity/Unit/Time operator layer: exact expression trees incl. unit exponents + idealised steps over the reals; induction lemmas (trapezoid sums, difference quotients, reset, shift)",
       "One-step contracts for arbitrary pre-states: post == step(pre, input) exactly (units: input unit times/divided by seconds; output stamped with the newest sample; absent until 2 resp. 3 samples; unit checks never fire for correctly dimensioned input), and abs(post) == step_r(abs(pre), input) over the reals; for runs of any length the integral is the trapezoidal sum and the derivative the last difference quotient, converters the same applied once or twice; reset erases history; shift invariance.",
       V_BASE + "A7, A8, constant input unit.")
@@ -76,7 +76,7 @@ claim("C11", "verus+kani",
       "Verus contracts on the extracted CommandPID::{new,reset,impl_set,get,update} (exact + idealised), lemmas over the spec step; Kani one-step structure harnesses (C05 module)",
       "post == cpid_step(pre, input) with gains selected by the command kind, error against the matching state component, the staged record filling one level per sample; get() returns output / first integral / second integral by kind and is absent for exactly the first 0/1/2 samples; impl_set with an equal command changes nothing, with a different one resets; absent resets; an input error is cached and the next sample starts afresh.",
       V_BASE + "update_following_data: not following => no-op (C15); SettableData opaque stub.")
-claim("C12", V,
+claim("C12", "verus+kani",
       "Verus contracts on the extracted EWMAStream (f32 instance and Quantity impl) and MovingAverageStream::update with loop invariants over the unbounded queue; idealised convexity lemmas",
       "EWMA: value == prev*(1-L) + new*L with L = 1 - powf(1-s, dt), first sample unchanged (idealised), time = sample time, the expect never fires; moving average: for any positive window and any event no index is out of range, the trim loop terminates and never pops the newest element, integer weights are non-negative and sum to the window for non-decreasing timestamps; idealised: output is the weighted mean.",
       V_BASE + "A4 (powf), A7.")
@@ -84,7 +84,7 @@ claim("C13", "kani+verus",
       "Kani proof harnesses on the command halves of Invert/GearTrain/Axle<N>::update and the terminal command read, with Command operator impls replaced by uninterpreted stand-ins",
       "After update every device terminal reads the newest command among those present (documented tie rule), kind and timestamp preserved, value mapped by the expected tree (negated / times ratio / divided by ratio / unchanged); no command => none written; a differential leaves all command slots bit-unchanged; a two-device chain harness.",
       K_BASE + "Value contracts of Command mul/div/neg: Verus unit c14_cmd_ops (exact) and Kani c14_command_*; chains of k devices: induction lemma c13_chain (any k) over the per-device maps, plus a 2-device Kani harness.")
-claim("C14", K,
+claim("C14", "kani+verus",
       "Kani proof harnesses (cvc5 for State/Quantity float formulas, SAT for Command) on State::update, the setters, State/Command arithmetic, Command <-> State/Quantity/f32 conversions",
       "State::update is exactly v' = v + dt*a, p' = p + dt*(v+v')/2 (true IEEE semantics) for every dt; setters accept the right unit and reject every other unit leaving the state bit-unchanged; Command::from(State) is the lowest non-zero derivative; accessors round-trip; arithmetic component-wise; different kinds always panic.",
       K_BASE)
@@ -92,11 +92,11 @@ claim("C15", K,
       "Kani one-step contracts on the provided methods of Settable against an arbitrary implementor, and on GetterFromHistory / ConstantGetter / TimeGetterFromGetter with scripted clocks and histories",
       "last request changes iff impl_set succeeded; following forwards exactly present values, nothing when absent, propagates errors, stops after stop_following; history adapter queries now + offset and restamps with now, constructors fix the offset as documented; constant getter; time getter from getter (absent => FromNone, its expect unreachable).",
       K_BASE + "A7.")
-claim("C16", K,
+claim("C16", "kani+rustc",
       "Kani proof harnesses with default memory-safety checks: functional equality under nondeterministic uninitialised memory for the n-ary streams, the terminal read and Axle::new; refutation witnesses for the lifetime-widening accessors",
       "First sentence: results of SumStream/ProductStream (per arity), the terminal state read (all four presence combinations) and Axle::new (per size) equal their specification for every execution, which, since CBMC gives unwritten MaybeUninit slots arbitrary contents, means they never depend on unwritten memory; no index out of range. Second sentence: not decidable as a contract (type soundness over all programs); the eleven accessors that widen &self to &'a are exhibited by safe witness programs and recorded as known findings.",
       K_BASE)
-claim("C17", K,
+claim("C17", "kani+rustc",
       "Kani sequential contracts per Reference variant (clone/borrow/borrow_mut/into_inner/to_dyn!) inside the crate, plus harness crates outside rrtk that expand to_dyn! with and without alloc/std features",
       "For each variant in the build: a write through any clone's borrow_mut is read through every other clone; Rc/Arc targets stay alive after the original is dropped; to_dyn! succeeds and aliases for every variant it lists. The concurrency clause is not decidable with Kani and is listed as not decided.",
       K_BASE + "Sequential execution only.")
@@ -104,7 +104,7 @@ claim("C18", "kani+verus",
       "Kani proof harnesses on every Time/DimensionlessInteger operator and conversion (cvc5 for float conversions)",
       "Integer operators are exact i64 arithmetic under the weakest no-overflow precondition; i64 conversions are the identity; Time -> Quantity is (ns as f32)/1e9 in seconds; Quantity -> Time is (v*1e9) as i64 for seconds and Err for every other unit; every mixed operator equals the Quantity operator after conversion.",
       K_BASE + V_BASE + "The accuracy clauses (monotone, two ulps, round trip within |t|*2^-22 + 1 ns) are Verus lemmas under the standard model of floating-point arithmetic (A12: each primitive operation correctly rounded with relative error 2^-24 and monotone), composed along the exact contracts of the two extracted conversions; the bit-precise attempts did not finish.")
-claim("C19", K,
+claim("C19", "kani+verus",
       "the same value contracts re-proved by Kani against the code each of 7 feature configurations compiles (quick: 3), plus no-panic/no-reject harnesses for the unchecked builds and a scan of every cfg site",
       "Every cfg-dependent item is listed by a scan of /repo; for each, the value contract - a function of the raw f32/i64 inputs only - is proved in every configuration, so equal inputs give equal numbers in all of them; with checking compiled out add/sub/ordering/setters/try_from never panic or reject for any pair of units; std abs and the manual branch agree.",
       K_BASE + "Whole-program equality follows compositionally; powf across std/libm/micromath excluded by the property.")
@@ -112,6 +112,25 @@ claim("C20", K,
       "Kani proof harnesses on ActuatorWrapper/GetterStateDeviceWrapper/PIDWrapper::update with recording inner objects whose outcomes are symbolic",
       "The inner settable receives exactly the terminal's combined read (nothing if none) before being updated; the encoder wrapper writes the getter's present state bit-unchanged and leaves the terminal untouched when absent; errors propagate in call order; the PID wrapper's wiring (clock, constant getters, follow) delivers exactly the inner CommandPID's output to the motor.",
       K_BASE + "PIDWrapper harnesses use CBMC --max-field-sensitivity-array-size 1024.")
+
+# additions made while the seeded changes were evaluated (DESIGN.md section 11): appended to the technique text
+EXTRA = {
+    "C01": "; the operator obligations also run in a release-like configuration (debug assertions off, dim_check_release)",
+    "C02": "; the exponent stream also in the no_std libm / micromath configurations",
+    "C03": "; the device command-relay obligations (C13) are listed here for the device-update and command-read clauses",
+    "C04": "; the PID stream's structural Kani obligations (C05) are listed here (output stamped with the input's time, reset equivalence), also in the release-like configuration",
+    "C06": "; every accessor obligation also with debug assertions off; get_piece against the integer statement in an A1-only Verus unit",
+    "C07": "; Kani: the constructor's acceptance obligations (returns exactly when the three durations are >= 0), also with debug assertions off, and the Command::from(State) contract; exact expression trees for the three position closed forms",
+    "C10": "; Kani obligations on the real structs for how the computed terms are combined (recording stand-ins for Quantity * and /), in the default and the unchecked configuration, and for the unit-mismatch panics of the to-state converters",
+    "C11": "; Kani obligations on the real struct through the public set / followed-getter path, in the default and the unchecked configuration",
+    "C12": "; the powf contract (A4) is proved for the libm back end with Kani (zero exponent quick, unit interval thorough)",
+    "C14": "; the mixed-kind panics also with unit checking compiled out; per-configuration State contracts (C19) and the Quantity::from(Time) contract (C18) listed here",
+    "C16": "; rustc decides seven must-not-compile probes of the safe API surface of Reference (kani/ext/c16_safe_surface); the Reference lifetime obligations of C17 are listed here; axle obligations also with debug assertions off",
+    "C17": "; four downstream harness crates (feature-less, same-named features, alloc-only rrtk, #![no_std] caller); a downstream crate that does not compile is decided by a compile differential attributed to the macro; clone_from; single evaluation of the macro argument",
+    "C19": "; release-like configurations; Verus: the powf wrapper returns exactly the back end's value (std and micromath units); every configuration-dependent construct is compared with the committed baseline contracts/c19_cfg_sites.json",
+}
+for _k, _v in EXTRA.items():
+    CLAIMS[_k]["technique"] += _v
 
 READY = {"C%02d" % i for i in range(1, 21)}
 
